@@ -359,12 +359,19 @@ func (clients *clientsContainer) clientOrArtificial(
 // shouldCountClient is a wrapper around [clientsContainer.find] to make it a
 // valid client information finder for the statistics.  If no information about
 // the client is found, it returns true.
+//
+// The identifiers don't carry the IPv6 zone of the client's address, so the
+// client is looked up loosely, exactly like [clientsContainer.findMultiple]
+// does it for the query log.  Otherwise the requests of a client configured
+// with a zoned address, such as fe80::1%eth0, would be ignored in the query log
+// but still counted here.
 func (clients *clientsContainer) shouldCountClient(ids []string) (y bool) {
 	clients.lock.Lock()
 	defer clients.lock.Unlock()
 
 	for _, id := range ids {
-		client, ok := clients.storage.Find(id)
+		ip, _ := netip.ParseAddr(id)
+		client, ok := clients.storage.FindLoose(ip, id)
 		if ok {
 			return !client.IgnoreStatistics
 		}
